@@ -20,10 +20,11 @@ PROP = {
     "assumptions": [],
 }
 
-DTYPES = ["<f4", "<f8", "<i4", "<i8", "u1", "bool"]
+DTYPES = ["<f4", "<f8", "<i4", "<i8", "u1", "bool", "<f2", ">f8", "<c8"]   # object / str dtypes are not used on the accept side (DESIGN.md C19)
 SHAPES = [()] + [s for r in (1, 2, 3) for s in itertools.product(range(5), repeat=r)]
 # same number of elements as a required shape but a different shape, and a few larger extents
-SHAPES += [(9,), (1, 9), (9, 1), (6,), (12,), (5,), (8,), (1, 1, 3), (3, 1, 1), (1, 1, 9), (2, 2, 1), (1, 2, 2), (7, 3), (3, 7), (1, 1, 1, 3), (3, 3, 1, 1)]
+SHAPES += [(9,), (1, 9), (9, 1), (6,), (12,), (5,), (8,), (1, 1, 3), (3, 1, 1), (1, 1, 9), (2, 2, 1), (1, 2, 2), (7, 3), (3, 7), (1, 1, 1, 3), (3, 3, 1, 1),
+           (3, 6), (6, 3), (3, 9), (9, 3), (2, 9), (18,), (27,), (3, 12), (2, 6), (6, 2), (2, 2, 2, 2)]
 SHAPES = list(dict.fromkeys(SHAPES))
 KINDS = ["none", "str", "int", "float", "list", "tuple", "nested-list", "list3", "bytes", "dict"]
 
@@ -60,7 +61,7 @@ def _args():
             w = _w(o._write)
             assert o.nBytes == len(w), f"nBytes {o.nBytes} != {len(w)} written"
             s = io.BytesIO(w + b"\xEE" * 4)
-            cls._build(s, fmt)
+            cls._build(s, getattr(o.format, "value", o.format))
             assert s.tell() == len(w), f"decode consumed {s.tell()} of {len(w)}"
         return chk
 
@@ -80,19 +81,28 @@ def _args():
         assert back.write() == w
 
     def d3(**kw):
+        from basictdf.tdfData3D import Data3dBlockFormat, Flags
+
         a = dict(volume=good((3,)), rotationMatrix=good((3, 3)), translationVector=good((3,)))
         a.update(kw)
+        if CONTEXT[0] == "alt":   # the other arguments take their less usual values
+            return Data3D(-7, 1, a["volume"], a["rotationMatrix"], a["translationVector"], 2.5, Flags.filtered, Data3dBlockFormat.byTrackWithoutLinks)
         return Data3D(100, 10, a["volume"], a["rotationMatrix"], a["translationVector"])
 
     def f3(**kw):
         a = dict(volume=good((3,)), rotationMatrix=good((3, 3)), translationVector=good((3,)))
         a.update(kw)
+        if CONTEXT[0] == "alt":
+            return ForceTorque3D(0, 2 ** 31 - 1, a["volume"], a["rotationMatrix"], a["translationVector"], -0.0)
         return ForceTorque3D(100, 10, a["volume"], a["rotationMatrix"], a["translationVector"])
 
     def cal(**kw):
         a = dict(calibration_volume_size=good((3,)), calibration_volume_rotation_matrix=good((3, 3)),
                  calibration_volume_translation_vector=good((3,)))
         a.update(kw)
+        if CONTEXT[0] == "alt":
+            return CalibrationDataBlock(DistorsionModel.Seelab1Distorsion, a["calibration_volume_size"], a["calibration_volume_rotation_matrix"],
+                                        a["calibration_volume_translation_vector"], np.array([], dtype="<i2"), [], CalibrationDataBlockFormat.BTS)
         return CalibrationDataBlock(DistorsionModel.noDistorsion, a["calibration_volume_size"], a["calibration_volume_rotation_matrix"],
                                     a["calibration_volume_translation_vector"], np.array([], dtype="<i2"), [], CalibrationDataBlockFormat.Seelab1)
 
@@ -132,6 +142,7 @@ def _args():
 
 
 ARG_NAMES = None
+CONTEXT = ["std"]
 _T = {}
 
 
@@ -156,6 +167,11 @@ def enum_shapes(tier):
         for shape in SHAPES:
             for dt in DTYPES:
                 yield {"arg": arg, "shape": list(shape), "dtype": dt}
+        if arg.split(".")[0] in ("Data3D", "ForceTorque3D", "CalibrationDataBlock"):
+            for shape in SHAPES:   # same lattice with the OTHER arguments at unusual values (other format, flag, start time, counts)
+                yield {"arg": arg, "shape": list(shape), "dtype": "<f8", "context": "alt"}
+        for kind in ("view-readonly", "view-strided", "masked", "subclass"):
+            yield {"arg": arg, "kind": kind}
         for kind in KINDS:
             yield {"arg": arg, "kind": kind}
         # sequences of exactly the required outer length (the only non-array form the statement admits: viewports)
@@ -165,8 +181,25 @@ def enum_shapes(tier):
 
 def run_shape(ctx, case):
     arg = case["arg"]
+    CONTEXT[0] = case.get("context", "std")
     req, factory, sized, seq_ok = table()[arg]
-    if "kind" in case:
+    if "kind" in case and case["kind"] in ("view-readonly", "view-strided", "masked", "subclass"):
+        # arrays of exactly the required shape in unusual guises: must be accepted and encode correctly
+        k = case["kind"]
+        base = np.arange(int(np.prod(req)) * 2 + 2, dtype="<f8")
+        if k == "view-readonly":
+            value = base[:int(np.prod(req))].reshape(req)
+            value.flags.writeable = False
+        elif k == "view-strided":
+            value = base[: 2 * int(np.prod(req)): 2].reshape(req)
+        elif k == "masked":
+            value = np.ma.masked_array(np.ones(req), mask=np.zeros(req, dtype=bool))
+        else:
+            class Sub_(np.ndarray):
+                pass
+            value = np.ones(req).view(Sub_)
+        should_accept, desc = True, f"{k} array of the required shape {req}"
+    elif "kind" in case:
         k = case["kind"]
         if k in KINDS:
             value = kind_value(k, req)
